@@ -23,11 +23,10 @@ theorem pin_pyFileSearcher : pyFileSearcher = [
     "if", "return", "loop", "if", "call:os.path.exists", "call:os.path.isfile", "call:open", "call:fp.read",
     "call:fp.close", "except:IOError", "raise:error.PySmiSearcherError", "call:error.PySmiSearcherError",
     "call:sys.exc_info", "if", "if", "if", "call:struct.unpack", "call:struct.unpack", "call:time.strftime",
+    "call:time.gmtime", "if", "raise:error.PySmiFileNotModifiedError", "call:error.PySmiFileNotModifiedError", "loop",
+    "if", "call:os.path.exists", "call:os.path.isfile", "call:os.stat", "except:OSError",
+    "raise:error.PySmiSearcherError", "call:error.PySmiSearcherError", "call:sys.exc_info", "call:time.strftime",
     "call:time.gmtime", "if", "raise:error.PySmiFileNotModifiedError", "call:error.PySmiFileNotModifiedError",
-    "raise:error.PySmiFileNotFoundError", "call:error.PySmiFileNotFoundError", "loop", "if", "call:os.path.exists",
-    "call:os.path.isfile", "call:os.stat", "except:OSError", "raise:error.PySmiSearcherError",
-    "call:error.PySmiSearcherError", "call:sys.exc_info", "call:time.strftime", "call:time.gmtime", "if",
-    "raise:error.PySmiFileNotModifiedError", "call:error.PySmiFileNotModifiedError",
     "raise:error.PySmiFileNotFoundError", "call:error.PySmiFileNotFoundError"] := by decide
 
 /-- StubSearcher.fileExists (pysmi/searcher/stub.py) -/
